@@ -132,6 +132,8 @@ def make_pilot(sim, layout, root, sandboxes=None):
     lms = {'order': list(lay['lms'])}
     for name in lay['lms']:
         lms[name] = {'pre_exec_cached': []}
+        if name == 'IBRUN' and lay.get('ibrun_tpn'):
+            lms[name]['options'] = {'tasks_per_node': lay['ibrun_tpn']}
         side.reg['lm.%s' % name.lower()] = lm_info(name, lay)
     rcfg = {'resource_manager': lay['rm'], 'agent_scheduler': lay['sched'],
             'agent_spawner': lay['spawner'] if lay['spawner'] != 'STUB'
